@@ -1845,22 +1845,56 @@ class ShortcutNode(ListNode):
         return False
 
     def format(self, leading_node=None):
+        """
+        Formats this shortcut.
+
+        The shortcut text is only written when it denotes exactly the nodes this shortcut covers
+        (given the entry MCNP carries over from ``leading_node``, the shortcut right before it).
+        Otherwise the covered values are written out one by one.
+
+        :param leading_node: the shortcut directly before this one in the list, if any.
+        :type leading_node: ShortcutNode
+        :rtype: str
+        """
+        carried = None
+        if leading_node is not None:
+            carried = getattr(leading_node, "_written_tail", None)
+        temp = None
         if self._type == Shortcuts.JUMP:
             temp = self._format_jump()
         # repeat
         elif self._type == Shortcuts.REPEAT:
-            temp = self._format_repeat(leading_node)
+            temp = self._format_repeat(carried)
         elif self._type == Shortcuts.MULTIPLY:
-            temp = self._format_multiply(leading_node)
+            temp = self._format_multiply(carried)
         elif self._type in {Shortcuts.INTERPOLATE, Shortcuts.LOG_INTERPOLATE}:
-            temp = self._format_interpolate(leading_node)
+            temp = self._format_interpolate(carried)
+        if temp is None:
+            temp = self._format_explicit()
         if self.end_padding:
             pad_str = self.end_padding.format()
         else:
             pad_str = ""
         return f"{temp}{pad_str}"
 
+    @staticmethod
+    def _is_close(a, b):
+        return math.isclose(a, b, rel_tol=rel_tol, abs_tol=abs_tol)
+
+    def _format_explicit(self):
+        """
+        Writes the covered values one by one (no shortcut).
+
+        :rtype: str
+        """
+        ret = ""
+        for node in self.nodes:
+            ret = ListNode._join_entries(ret, node.format())
+        self._written_tail = self.nodes[-1].value if len(self.nodes) > 0 else None
+        return ret
+
     def _format_jump(self):
+        self._written_tail = None
         num_jumps = len(self.nodes)
         if num_jumps == 0:
             return ""
@@ -1879,14 +1913,37 @@ class ShortcutNode(ListNode):
 
         return f"{num_jumps.format()}{j}"
 
-    def _format_repeat(self, leading_node=None):
-        if leading_node is not None:
+    def _all_repeat(self, value, nodes):
+        """
+        Whether all nodes hold ``value`` as far as a repeat is concerned.
+        """
+        for node in nodes:
+            if node.value is None:
+                return False
+            if node.type in {int, float}:
+                if not self._is_close(value, node.value):
+                    return False
+            elif value != node.value:
+                return False
+        return True
+
+    def _format_repeat(self, carried=None):
+        nodes = list(self.nodes)
+        if carried is not None and len(nodes) >= 1 and self._all_repeat(carried, nodes):
+            # continues the previous shortcut: every node repeats its last entry
             first_val = ""
-            num_extra = 0
+            num_repeats = len(nodes)
+            self._written_tail = carried
+        elif (
+            len(nodes) >= 2
+            and nodes[0].value is not None
+            and self._all_repeat(nodes[0].value, nodes[1:])
+        ):
+            first_val = nodes[0].format()
+            num_repeats = len(nodes) - 1
+            self._written_tail = nodes[0].value
         else:
-            first_val = self.nodes[0].format()
-            num_extra = 1
-        num_repeats = len(self.nodes) - num_extra
+            return None
         self._num_node.value = num_repeats
         if len(self._original) >= 2 and "r" in self._original[1]:
             r = "r"
@@ -1902,29 +1959,73 @@ class ShortcutNode(ListNode):
             num_repeats = self._num_node
         return f"{first_val}{num_repeats.format()}{r}"
 
-    def _format_multiply(self, leading_node=None):
-        if leading_node is not None:
-            first_val = leading_node.nodes[-1]
+    def _format_multiply(self, carried=None):
+        nodes = list(self.nodes)
+        if carried is not None and len(nodes) == 1:
+            base = carried
             first_val_str = ""
+        elif len(nodes) == 2:
+            base = nodes[0].value
+            first_val_str = nodes[0].format()
         else:
-            first_val = self.nodes[0]
-            first_val_str = first_val
-        if "M" in self._original[-1]:
+            return None
+        product = nodes[-1].value
+        if base is None or product is None or base == 0:
+            return None
+        if len(self._original) > 0 and "M" in self._original[-1]:
             m = "M"
         else:
             m = "m"
-        self._num_node.value = self.nodes[-1].value / first_val.value
-        return f"{first_val_str.format()}{self._num_node.format()}{m}"
+        self._num_node.value = product / base
+        num_str = self._num_node.format()
+        # the factor is written with the precision of the original token: check what it denotes
+        try:
+            written = base * fortran_float(num_str)
+        except ValueError:
+            return None
+        if not self._is_close(written, product):
+            return None
+        self._written_tail = written
+        return f"{first_val_str}{num_str}{m}"
 
-    def _format_interpolate(self, leading_node=None):
-        if leading_node is not None:
+    def _is_interpolation(self, begin, nodes):
+        """
+        Whether ``nodes`` are the interpolated values from ``begin`` (excluded) to the last node (included).
+        """
+        number = len(nodes)
+        if begin is None or number == 0 or any(n.value is None for n in nodes):
+            return False
+        end = nodes[-1].value
+        is_log = self._type == Shortcuts.LOG_INTERPOLATE
+        if is_log:
+            if begin <= 0 or end <= 0:
+                return False
+            begin = math.log(begin, 10)
+            end = math.log(end, 10)
+        spacing = (end - begin) / number
+        for i, node in enumerate(nodes):
+            if is_log:
+                new_val = 10 ** (begin + spacing * (i + 1))
+            else:
+                new_val = begin + spacing * (i + 1)
+            if not self._is_close(new_val, node.value):
+                return False
+        return True
+
+    def _format_interpolate(self, carried=None):
+        nodes = list(self.nodes)
+        if carried is not None and self._is_interpolation(carried, nodes):
+            # continues the previous shortcut: starts from its last entry
             start = ""
             num_extra_nodes = 1
-        else:
-            start = self.nodes[0]
+        elif len(nodes) >= 2 and self._is_interpolation(nodes[0].value, nodes[1:]):
+            start = nodes[0].format()
             num_extra_nodes = 2
-        end = self.nodes[-1]
-        num_interp = len(self.nodes) - num_extra_nodes
+        else:
+            return None
+        end = nodes[-1]
+        self._written_tail = end.value
+        num_interp = len(nodes) - num_extra_nodes
         self._num_node.value = num_interp
         interp = "I"
         can_match = False
@@ -1947,7 +2048,7 @@ class ShortcutNode(ListNode):
             padding = self._original[2]
         else:
             padding = PaddingNode(" ")
-        return f"{start.format()}{num_interp.format()}{interp}{padding.format()}{end.format()}"
+        return f"{start}{num_interp.format()}{interp}{padding.format()}{end.format()}"
 
 
 class ClassifierNode(SyntaxNodeBase):
